@@ -90,8 +90,50 @@ func checkFDEvery(w *World, r *Report) {
 		if n == 0 {
 			r.Fail("fdevery", r.MkKey("fdevery", fnName(fn), "store into the table behind the new FDSelect"), w.Pos(fn.Pos()), "no per-glyph table behind the new FDSelect function found", nil)
 		}
+		// the FDSelect field of the new outlines is assigned on every path to a return
+		// (a nil FDSelect makes every later use of the subset panic)
+		setBlocks := map[*ssa.BasicBlock]bool{}
+		for _, b := range fn.Blocks {
+			for _, in := range b.Instrs {
+				if st, ok := in.(*ssa.Store); ok && fieldName(st.Addr) == "FDSelect" {
+					setBlocks[b] = true
+				}
+			}
+		}
+		key := r.MkKey("fdevery", fnName(fn), "FDSelect of the subset assigned on every path")
+		var bare *ssa.BasicBlock
+		seen := map[*ssa.BasicBlock]bool{}
+		work := []*ssa.BasicBlock{fn.Blocks[0]}
+		for len(work) > 0 && bare == nil {
+			b := work[len(work)-1]
+			work = work[:len(work)-1]
+			if seen[b] || setBlocks[b] {
+				continue
+			}
+			seen[b] = true
+			if len(b.Instrs) > 0 {
+				if ret, ok := b.Instrs[len(b.Instrs)-1].(*ssa.Return); ok {
+					// returning nil outlines (nothing to subset) is not a subset without FDSelect
+					nilRes := len(ret.Results) > 0
+					for _, rv := range ret.Results {
+						if c, ok := rv.(*ssa.Const); !ok || !c.IsNil() {
+							nilRes = false
+						}
+					}
+					if !nilRes {
+						bare = b
+					}
+				}
+			}
+			work = append(work, b.Succs...)
+		}
+		if bare == nil {
+			r.OK("fdevery", key, w.Pos(fn.Pos()), "every returning path assigns FDSelect")
+		} else {
+			r.Fail("fdevery", key, w.Pos(bare.Instrs[len(bare.Instrs)-1].Pos()), "a path to this return assigns no FDSelect function to the new outlines (for instance when a single private dictionary remains): the field stays nil and the first use of the subset — writing it, asking for a glyph's font dictionary — panics", nil)
+		}
 	}
-	r.Floor("fdevery", 2)
+	r.Floor("fdevery", 4)
 }
 
 func isSliceOrSliceCell(v ssa.Value) bool {
